@@ -199,6 +199,11 @@ func userProbe(r *Rng) ([]byte, []int) {
 	call("b.greet(\"z\")")
 	call("helper(1)")
 	call("combo(g, g)")
+	// string literals that span lines: the row of their first line belongs to the value
+	call("note = \"first")
+	line("second line\"")
+	call("g.greet(\"multi")
+	line("line\", 2)")
 	call("Js::X")
 	call("Nope")
 	call("JSON.")
